@@ -1214,6 +1214,12 @@ func translate(repo string, t *target) (def string, err error) {
 			if kv, ok := n.(*ast.KeyValueExpr); ok && rhs == nil && src(kv.Key) == t.AssignTo {
 				rhs = kv.Value
 			}
+			// the single argument of a call `f(expr)` counts as an assignment to f; if_contains selects among
+			// several calls of the same function
+			if ce, ok := n.(*ast.CallExpr); ok && rhs == nil && len(ce.Args) == 1 && src(ce.Fun) == t.AssignTo &&
+				t.IfContains != "" && strings.Contains(src(ce.Args[0]), t.IfContains) {
+				rhs = ce.Args[0]
+			}
 			return true
 		})
 		if rhs == nil {
